@@ -239,6 +239,10 @@ fn check_history(report: &Report, rt: &Arc<tokio::runtime::Runtime>, hist: &[H])
 }
 
 pub fn run(opts: Opts) -> i32 {
+    if let Some(spec) = opts.extra.iter().find_map(|a| a.strip_prefix("race=")) {
+        let spec = spec.to_string();
+        return crate::race::worker(opts, "C10", "exploration", &spec);
+    }
     let report = Report::new("C10", "exploration", opts.clone());
     if let Some(path) = &opts.replay {
         report.replay_by_re_enumeration(path);
@@ -266,5 +270,28 @@ pub fn run(opts: Opts) -> i32 {
         check_history(&report, rt, h);
         report.eval(Some(&h));
     });
+    // engine S at system-call granularity: a branch / handoff racing ONE append on the parent; the
+    // recorded cut (seq and message) must be that of one state of the parent, before or after
+    {
+        use crate::race::{job, Pre, Reader, Writer, WRITERS};
+        let tier = report.tier();
+        let t = tier.as_str();
+        let cap = report.opts.wall_cap_s;
+        let mut jobs = Vec::new();
+        for r in [Reader::Branch, Reader::Handoff] {
+            if tier == crate::common::Tier::Quick {
+                jobs.push(job(t, "c10", cap, Pre::OpenTurn, r, Writer::Message, 1));
+            } else {
+                for pre in [Pre::OpenTurn, Pre::OpenTurnNoCaches] {
+                    for w in WRITERS {
+                        jobs.push(job(t, "c10", cap, pre, r, w, 1));
+                    }
+                }
+                jobs.push(job(t, "c10", cap, Pre::OpenTurn, r, Writer::Message, 2));
+            }
+        }
+        report.set_extra("race_configs", json!(jobs.len()));
+        crate::common::run_workers(&report, jobs, 16, &crate::race::shim_env());
+    }
     report.finish()
 }
